@@ -133,6 +133,7 @@ def run_property(prop: str, tier: str = "quick", replay: Optional[str] = None, t
 
     functions = []
     all_obs = []
+    path_guards = []
     limits = []
     assumed_contracts = []
     paths = 0
@@ -190,8 +191,15 @@ def run_property(prop: str, tier: str = "quick", replay: Optional[str] = None, t
             limits.append("%s: no path of the function reaches a normal return (vacuous verification?)" % q)
         functions[-1]["normal_return_paths"] = res.normal_paths
         functions[-1]["raising_paths"] = res.raising_paths
+        if res.skipped_instances:
+            # finite-instantiation instances outside the domain (contradicting the receiver's class invariant / the
+            # precondition): not verified, not counted - listed
+            functions[-1]["instances_outside_domain"] = res.skipped_instances
+            if len(res.skipped_instances) >= res.instances:
+                limits.append("%s: every instance is outside the domain (contradictory entry assumptions)" % q)
         all_obs.extend(res.obligations)
         limits.extend("%s: %s" % (q, l) for l in res.limits)
+        path_guards.extend(res.guards)
         # vacuity guard: the assumptions at function entry must be satisfiable
         if res.entry_pc is not None:
             from .symexec import Obligation
@@ -227,9 +235,17 @@ def run_property(prop: str, tier: str = "quick", replay: Optional[str] = None, t
             traceback.print_exc()
             limits.append("extra check %s crashed: %s" % (getattr(fn, "__name__", "?"), e))
 
+    # return-reachability guards: one query per path end (normal return, expected raise, end of a loop iteration):
+    # "path condition + path axioms + prelude is satisfiable"; `unsat` = the obligations of that path hold vacuously
+    guard_obs, guard_qf_unsat = build_path_guards(eng, path_guards)
+    all_obs.extend(guard_obs)
+
     t_solve = time.time()
     results = solve.discharge(eng, all_obs, timeout=per_timeout, backends=backends, tag=prop)
     solve_time = time.time() - t_solve
+
+    # must-fail sampling: ~10 discharged obligations (seeded) re-asked with the goal False under the same assumptions
+    mustfail = sample_must_fail(eng, solve, all_obs, results, seed, prop)
 
     # obligations decided by an extra check (e.g. the effect checker): named, counted, ledgered like the others
     for x in extra_results:
@@ -246,10 +262,11 @@ def run_property(prop: str, tier: str = "quick", replay: Optional[str] = None, t
     if os.environ.get("PYVC_DUMP_RESULTS"):
         # per-obligation verdicts for a check that is consumed by another one (specs/reader_link.py)
         write_json(os.environ["PYVC_DUMP_RESULTS"], [{"name": r.name, "ok": bool(r.discharged), "status": r.status, "function": r.func,
-                                                     "kind": r.kind} for r in results if r.kind != "vacuity"])
-    real = [r for r in results if r.kind != "vacuity"]
+                                                     "kind": r.kind} for r in results if not r.kind.startswith("vacuity")])
+    real = [r for r in results if not r.kind.startswith("vacuity")]
     vac = [r for r in results if r.kind == "vacuity"]
     vac_bad = [r for r in vac if r.status == "unsat"]
+    guard_report = summarise_path_guards([r for r in results if r.kind == "vacuity-path"], guard_qf_unsat)
     failed = [r for r in real if not r.discharged]
     backend_count: Dict[str, int] = {}
     for r in real:
@@ -260,7 +277,7 @@ def run_property(prop: str, tier: str = "quick", replay: Optional[str] = None, t
     # second opinion (thorough): every non-trivial obligation again on cvc5
     second = None
     if tier == "thorough":
-        work = [o for o, r in zip(all_obs, results) if r.kind != "vacuity" and r.backend not in ("trivial",)]
+        work = [o for o, r in zip(all_obs, results) if not r.kind.startswith("vacuity") and r.backend not in ("trivial",)]
         res2 = solve.discharge(eng, work, timeout=per_timeout, backends=["cvc5"], tag=prop + "-cvc5")
         second = {"backend": "cvc5", "agree_unsat": sum(1 for r in res2 if r.status == "unsat"),
                   "undecided": sum(1 for r in res2 if r.status not in ("unsat", "sat")),
@@ -335,7 +352,10 @@ def run_property(prop: str, tier: str = "quick", replay: Optional[str] = None, t
             ev2, d2, fails2, _ = suite.run(REG, seed, 2000 if tier == "quick" else 20000, only=fn_tail)
             if fails2:
                 concrete = fails2[0]
-        if r.status == "sat" or in_ledger or concrete is not None:
+        if r.status == "error" and concrete is None:
+            # a back end rejected the query (malformed term, unsupported construct): a checker problem, never a verdict
+            limits.append("%s: solver error on obligation %s (%s)" % (r.func, r.name, (r.detail or "")[:120]))
+        elif r.status == "sat" or in_ledger or concrete is not None:
             violations.append((r, concrete))
         else:
             undecided.append(r)
@@ -406,6 +426,16 @@ def run_property(prop: str, tier: str = "quick", replay: Optional[str] = None, t
         for r in vac_bad:
             lines.append("BROKEN-CHECK: contradictory assumptions at entry of %s" % r.func)
         exit_code = exit_code or 3
+    for fn_, grp_ in guard_report["all_vacuous"]:
+        lines.append("BROKEN-CHECK: every %s path of %s is unreachable under its assumptions (vacuous verification)" % (grp_, fn_))
+        exit_code = exit_code or 3
+    if guard_report["vacuous_paths"]:
+        lines.append("VACUOUS-PATHS: %d path end(s) unreachable under their assumptions (infeasible branch combinations the "
+                     "quantifier-free pruning could not exclude, or a contract error): see evidence coverage.vacuity_guards"
+                     % len(guard_report["vacuous_paths"]))
+    for n_ in mustfail["contradictory"]:
+        lines.append("BROKEN-CHECK: the assumptions of a discharged obligation are contradictory (goal False is provable): %s" % n_)
+        exit_code = exit_code or 3
     if lean is not None and not lean["ok"]:
         lines.append("BROKEN-CHECK: Lean lemma library does not check: %s" % [f for f in lean["files"] if f["exit"] != 0 or f["forbidden"]])
         exit_code = exit_code or 3
@@ -451,7 +481,10 @@ def run_property(prop: str, tier: str = "quick", replay: Optional[str] = None, t
             "paths_explored": paths,
             "obligations_by_backend": backend_count,
             "obligations_by_kind": count_by(real, lambda r: r.kind),
-            "vacuity_guards": {"entry_assumption_checks": len(vac), "contradictory": [r.func for r in vac_bad]},
+            "vacuity_guards": {"entry_assumption_checks": len(vac), "contradictory": [r.func for r in vac_bad],
+                               "path_guards": guard_report["counts"], "vacuous_paths": guard_report["vacuous_paths"],
+                               "functions_with_only_vacuous_paths": guard_report["all_vacuous"],
+                               "must_fail_sample": mustfail},
             "generation_time_s": round(gen_time, 2),
             "solver_time_s": round(sum(r.time for r in results), 2),
             "solver_wall_s": round(solve_time, 2),
@@ -501,6 +534,89 @@ def norm_name(name: str) -> str:
         prev = name
         name = re.sub(r"(/subset|/superset|/le|/ge|\.\d+)$", "", name)
     return name
+
+
+def build_path_guards(eng, path_guards):
+    """Obligations `goal False` (kind vacuity-path) for the distinct path ends; path ends whose quantifier-free part alone is
+    contradictory are decided in process (cheap) and returned separately."""
+    import z3
+    from .symexec import Obligation, has_quantifier
+
+    obs, qf_unsat, seen = [], [], set()
+    for k, (func, kind, pc, axioms, taken) in enumerate(path_guards):
+        key = (func, kind, tuple(p.get_id() for p in pc))
+        if key in seen:
+            continue
+        seen.add(key)
+        fshort = func.replace("pydsdl.", "")
+        name = "%s/vacuity#%s-path-reachable[%s]" % (fshort, kind, "".join(str(d) for d in taken)[:40])
+        s_ = z3.Solver()
+        s_.set("timeout", 300)
+        for p_ in pc:
+            if not has_quantifier(p_):
+                s_.add(p_)
+        if s_.check() == z3.unsat:
+            qf_unsat.append((func, kind, name))
+            continue
+        obs.append(Obligation(name, pc, z3.BoolVal(False), axioms, func, list(taken), info={"guard": kind}, kind="vacuity-path"))
+    return obs, qf_unsat
+
+
+def summarise_path_guards(results, qf_unsat):
+    groups = {}
+    vacuous = []
+
+    def group_of(kind):
+        return "normal-return" if kind == "return" else ("expected-raise" if kind.startswith("raise") else kind)
+
+    for r in results:
+        kind = (r.info or {}).get("guard", "return")
+        g = groups.setdefault((r.func, group_of(kind)), [0, 0])
+        g[0] += 1
+        if r.status == "unsat":
+            g[1] += 1
+            vacuous.append(r.name)
+    for func, kind, name in qf_unsat:
+        g = groups.setdefault((func, group_of(kind)), [0, 0])
+        g[0] += 1
+        g[1] += 1
+        vacuous.append(name + " (quantifier-free part contradictory)")
+    all_vac = sorted((f, g) for (f, g), (n, v) in groups.items() if n > 0 and v == n and g != "expected-raise")
+    counts = {"%s|%s" % (f.replace("pydsdl.", ""), g): {"paths": n, "vacuous": v} for (f, g), (n, v) in sorted(groups.items())}
+    return {"counts": counts, "vacuous_paths": sorted(vacuous), "all_vacuous": all_vac}
+
+
+def sample_must_fail(eng, solve, all_obs, results, seed, prop, k=10):
+    """Deterministic sample of ~k discharged obligation *names*; every instance (path) of a sampled name is re-asked with the
+    goal False under the same assumptions.  An instance whose assumptions are contradictory lies on an infeasible path
+    (listed); a name ALL of whose instances are contradictory was never really proved (BROKEN-CHECK)."""
+    import random
+    import z3
+    from .symexec import Obligation
+
+    by_name = {}
+    for i, (o, r) in enumerate(zip(all_obs, results)):
+        if r.kind.startswith("vacuity") or not r.discharged or r.kind == "noraise" or z3.is_false(z3.simplify(o.goal)):
+            continue  # (an obligation with the goal False *is* a proof that its path is infeasible)
+        by_name.setdefault(o.name, {})[tuple(p.get_id() for p in o.pc)] = i
+    rng = random.Random("%s-%d" % (prop, seed))
+    names = sorted(by_name)
+    picked = rng.sample(names, min(k, len(names)))
+    obs, owner = [], []
+    for n in picked:
+        for i in list(by_name[n].values())[:12]:
+            obs.append(Obligation(n + "/must-fail", all_obs[i].pc, z3.BoolVal(False), all_obs[i].axioms, all_obs[i].func,
+                                  all_obs[i].path, kind="vacuity-mustfail"))
+            owner.append(n)
+    res = solve.discharge(eng, obs, timeout=2.0, backends=["z3"], tag=prop + "-mustfail") if obs else []
+    per = {}
+    for n, r in zip(owner, res):
+        t = per.setdefault(n, [0, 0])
+        t[0] += 1
+        t[1] += 1 if r.status == "unsat" else 0
+    return {"sampled": picked, "instances": len(obs),
+            "contradictory": sorted(n for n, (a, b) in per.items() if a > 0 and a == b),
+            "instances_on_infeasible_paths": {n: "%d of %d" % (b, a) for n, (a, b) in sorted(per.items()) if 0 < b < a}}
 
 
 def count_by(items, key):
